@@ -371,6 +371,79 @@ fn exec(live: &mut Live, op: &Value, dict: &Dict, ev: &mut Map<String, Value>, v
                 Err(e) => res_err(e),
             }
         }
+        // ---- C16: a documented deviation that needs a DIFAT sector, patched into a copy of the
+        //      current bytes (the file must have at least one DIFAT sector: > 109 FAT sectors) ----
+        "deviate" => {
+            let mut bytes = live.snap.bytes();
+            let kind = op["kind"].as_str().unwrap_or("");
+            let u32at = |b: &[u8], o: usize| u32::from_le_bytes([b[o], b[o + 1], b[o + 2], b[o + 3]]);
+            let slen = 1usize << u32at(&bytes, 28).wrapping_shr(16).min(12); // sector shift at offset 30
+            let first_difat = u32at(&bytes, 68) as usize;
+            let per = slen / 4;
+            if first_difat >= 0xFFFF_FFF0usize || (first_difat + 2) * slen > bytes.len() {
+                return json!({"k": "err", "e": "NoDifatSector"});
+            }
+            let dso = (first_difat + 1) * slen;
+            // FAT sector and cell that describe sector `first_difat`
+            let fat_index = first_difat / per;
+            let fat_sector = if fat_index < 109 {
+                u32at(&bytes, 76 + 4 * fat_index) as usize
+            } else if fat_index - 109 < per - 1 {
+                u32at(&bytes, dso + 4 * (fat_index - 109)) as usize
+            } else {
+                usize::MAX
+            };
+            match kind {
+                "difat_zero_pad" => {
+                    // trailing FREE entries of the (last) DIFAT sector become zeros
+                    let mut i = per - 1;
+                    while i > 0 && u32at(&bytes, dso + 4 * (i - 1)) == 0xFFFF_FFFF {
+                        bytes[dso + 4 * (i - 1)..dso + 4 * i].copy_from_slice(&0u32.to_le_bytes());
+                        i -= 1;
+                    }
+                }
+                "difat_unmarked_end" | "difat_unmarked_free" => {
+                    if fat_sector == usize::MAX || (fat_sector + 2) * slen > bytes.len() {
+                        return json!({"k": "err", "e": "NoDifatSector"});
+                    }
+                    let o = (fat_sector + 1) * slen + 4 * (first_difat % per);
+                    let v: u32 = if kind == "difat_unmarked_end" { 0xFFFF_FFFE } else { 0xFFFF_FFFF };
+                    bytes[o..o + 4].copy_from_slice(&v.to_le_bytes());
+                }
+                "difat_end_free" => {
+                    let o = dso + slen - 4;
+                    bytes[o..o + 4].copy_from_slice(&0xFFFF_FFFFu32.to_le_bytes());
+                }
+                "difat_relocate" => {
+                    // NOT a deviation: a different but equally legal place for the DIFAT sector
+                    // (C04: "FAT/DIFAT/MiniFAT/directory sectors anywhere").  The sector is copied
+                    // to a new sector appended to the file; the old one becomes free.
+                    let nsec = bytes.len() / slen - 1;
+                    let cell_off = |b: &[u8], sec: usize| -> Option<usize> {
+                        let fi = sec / per;
+                        let fs = if fi < 109 { u32at(b, 76 + 4 * fi) as usize } else if fi - 109 < per - 1 { u32at(b, dso + 4 * (fi - 109)) as usize } else { usize::MAX };
+                        if fs == usize::MAX || (fs + 2) * slen > b.len() { None } else { Some((fs + 1) * slen + 4 * (sec % per)) }
+                    };
+                    let (Some(o_old), Some(o_new)) = (cell_off(&bytes, first_difat), cell_off(&bytes, nsec)) else {
+                        return json!({"k": "err", "e": "NoDifatSector"});
+                    };
+                    let copy = bytes[dso..dso + slen].to_vec();
+                    bytes.extend_from_slice(&copy);
+                    bytes[o_new..o_new + 4].copy_from_slice(&0xFFFF_FFFCu32.to_le_bytes());
+                    bytes[o_old..o_old + 4].copy_from_slice(&0xFFFF_FFFFu32.to_le_bytes());
+                    bytes[68..72].copy_from_slice(&(nsec as u32).to_le_bytes());
+                    for x in bytes[dso..dso + slen].iter_mut() {
+                        *x = 0xEE;
+                    }
+                }
+                _ => return json!({"k": "err", "e": "UnknownDeviation"}),
+            }
+            ev.insert(
+                "dev".into(),
+                json!({"strict": reopen_dump(&bytes, true, dict), "permissive": reopen_dump(&bytes, false, dict)}),
+            );
+            ok(json!("unit"))
+        }
         // ---- handle operations (each leaves no pending data behind) ----
         "h_write" => {
             let h = hname();
